@@ -15,6 +15,10 @@ given as an argument), so the semantics is a total function defined by structura
 program, and a theorem quantified over all oracles covers all branch choices and all iteration
 counts. Calls are resolved through a `CallSem`; `sem P d` is the semantics of program `P` with call
 depth at most `d` (a deeper call raises), the theorems quantify over every `d`.
+
+Protected / unprotected parameters. The property protects Triangle / Cell / Metadata arguments. A parameter
+listed in `Fn.wparams` (a `pd.DataFrame`) is unprotected: the function may write the object it refers to
+(level `ext`), not what that object contains; the frame theorems are about everything else.
 Core Lean only.
 -/
 import Bermuda.Model.Heap
@@ -36,6 +40,8 @@ inductive Lvl where
   | sh (k : Nat)
   | deep
   | num
+  | nums    -- a new container of immutable values and new arrays only (a dict of accumulators)
+  | ext     -- NOT allocated in this call: the object an UNPROTECTED parameter (a data frame) refers to; entries arbitrary
 deriving DecidableEq, Repr, Inhabited
 
 /-- the level of the entries (`none`: unconstrained / no entries) -/
@@ -44,14 +50,23 @@ def Lvl.elem : Lvl → Option Lvl
   | .sh (k + 1) => some (.sh k)
   | .deep => some .deep
   | .num => none
+  | .nums => some .num
+  | .ext => none
 
 /-- an array has no entries, so a `num` object may stand wherever an object of any level is expected
 (written by cases: these functions are evaluated by the kernel on every check) -/
 def Lvl.sub : Lvl → Lvl → Bool
+  | .num, .ext => false
   | .num, _ => true
   | .deep, .deep => true
+  | .ext, .ext => true
+  | .nums, .nums => true
   | .sh a, .sh b => a == b
   | _, _ => false
+
+def Lvl.isExt : Lvl → Bool
+  | .ext => true
+  | _ => false
 
 def Lvl.isNum : Lvl → Bool
   | .num => true
@@ -110,6 +125,10 @@ deriving Repr, Inhabited
 structure Fn where
   name : String
   params : List Var
+  /-- positions (in `params`) of the UNPROTECTED parameters: arguments that are not a Triangle / Cell / Metadata
+  (a data frame). The function may write into the object such an argument refers to (not into what that
+  object contains); the frame theorem is about everything else. -/
+  wparams : List Nat := []
   body : Stmt
   /-- declared class of the returned reference (checked by the discipline at every `return`) -/
   retCls : Cls
@@ -393,11 +412,16 @@ def exec (cs : CallSem) : Stmt → St → Out
   | .ret x, st => .ret (st.get x) st
   | .raise, st => .exc st
 
+/-- parameters bound to the arguments in order; a parameter without an argument is `None` -/
+def bindParams : List Var → List Ref → List Ref → List Ref
+  | [], _, e => e
+  | p :: ps, [], e => bindParams ps [] (setPad Ref.none e p .none)
+  | p :: ps, r :: rs, e => bindParams ps rs (setPad Ref.none e p r)
+
 /-- a call of `f`: parameters bound to the arguments, everything else unbound; falling off the end
 returns `None` -/
 def runFn (cs : CallSem) (f : Fn) (args : List Ref) (h : Heap) (o : Oracle) : Heap × Except Unit Ref × Oracle :=
-  let env := (f.params.zip args).foldl (fun e pa => setPad Ref.none e pa.1 pa.2) []
-  match exec cs f.body ⟨env, h, o⟩ with
+  match exec cs f.body ⟨bindParams f.params args [], h, o⟩ with
   | .norm st => (st.heap, .ok .none, st.orc)
   | .ret r st => (st.heap, .ok r, st.orc)
   | .exc st => (st.heap, .error (), st.orc)
@@ -489,10 +513,10 @@ def mergeOk (cx cv : Cls) : Bool :=
   | .any => false
 
 def allocOk (a : AEnv) (t : Lvl) : Alloc → Bool
-  | .dict => !t.isNum
-  | .arr => true
-  | .lit es => !t.isNum && es.all fun e => storable t (a.get e.2)
-  | .union ys => !t.isNum && ys.all fun y => mergeable t (a.get y)
+  | .dict => !t.isNum && !t.isExt
+  | .arr => !t.isExt
+  | .lit es => !t.isNum && !t.isExt && es.all fun e => storable t (a.get e.2)
+  | .union ys => !t.isNum && !t.isExt && ys.all fun y => mergeable t (a.get y)
   | .deep _ => t.isDeep
 
 /-- a primitive statement: it may end normally in `a'` or raise from `a`. The exceptional exit is only
@@ -507,9 +531,24 @@ def loadCls : Cls → Cls
     | some t' => .lv t'
   | .any => .any
 
+/-- what a caller knows about a function: declared result class, positions of the unprotected parameters -/
+abbrev Summary := Cls × List Nat
+
+/-- an argument handed to an unprotected (written) parameter must be an immutable value, the object of one of
+the caller's own unprotected parameters, or a new object without constraints on its entries (`sh 0`, `num`) -/
+def Cls.isWritableArg : Cls → Bool
+  | .scalar => true
+  | .lv t => t.elem.isNone
+  | .any => false
+
+def callOk (a : AEnv) (wp : List Nat) (args : List Var) : Bool :=
+  wp.all fun j => match args[j]? with
+    | some y => (a.get y).isWritableArg
+    | none => true
+
 /-- `sums`: declared result class of every function of the program; `rc`: of this function; `tr`: inside
 a `try` body (the exceptional exit is needed) -/
-def absExec (sums : List Cls) (rc : Cls) : Bool → Stmt → AEnv → ARes
+def absExec (sums : List Summary) (rc : Cls) : Bool → Stmt → AEnv → ARes
   | tr, .skip, a => prim tr true a a
   | tr, .alloc x t al, a => prim tr (allocOk a t al) a (a.set x (.lv t))
   | tr, .bind x y, a => prim tr true a (a.set x (a.get y))
@@ -523,9 +562,10 @@ def absExec (sums : List Cls) (rc : Cls) : Bool → Stmt → AEnv → ARes
   | tr, .aug x v, a =>
     match a.get x with
     | .scalar => prim tr true a (a.set x (.lv .num))
-    | .lv t => prim tr (mergeable t (a.get v)) a a
+    | .lv t => prim tr (mergeable t (a.get v) && !t.isExt) a a
     | .any => prim tr false a a
-  | tr, .call x f _, a => prim tr true a (a.set x (sums.getD f .any))
+  | tr, .call x f args, a =>
+    prim tr (callOk a (sums.getD f (.any, [])).2 args) a (a.set x (sums.getD f (.any, [])).1)
   | tr, .unknown args, a => prim tr (args.all fun y => (a.get y).isScalar) a a
   | tr, .seq s t, a =>
     let r1 := absExec sums rc tr s a
@@ -556,16 +596,26 @@ def absExec (sums : List Cls) (rc : Cls) : Bool → Stmt → AEnv → ARes
   | _, .ret x, a => ⟨(a.get x).le rc, none, none, none⟩
   | tr, .raise, a => ⟨true, none, if tr then some a else none, none⟩
 
-/-- entry environment: parameters may be anything, every other variable is unbound -/
-def entryEnv (params : List Var) : AEnv := params.foldl (fun a p => a.set p .any) []
+def entryEnvAux (wp : List Nat) : Nat → List Var → AEnv → AEnv
+  | _, [], a => a
+  | i, p :: ps, a => entryEnvAux wp (i + 1) ps (a.set p (if wp.contains i then .lv .ext else .any))
+
+/-- protected parameters may be anything; an unprotected parameter is an immutable value or its own object -/
+def entryEnv (params : List Var) (wp : List Nat) : AEnv := entryEnvAux wp 0 params []
 
 /-- THE DISCIPLINE: every store / merge / shrink / augmented assignment of the body targets a
-variable known to hold an immutable value or an object allocated in this call, at its level; every
-returned reference has the declared class; no call of unknown code receives an object -/
-def writesOnlyFresh (sums : List Cls) (f : Fn) : Bool :=
-  (absExec sums f.retCls false f.body (entryEnv f.params)).ok
+variable known to hold an immutable value, an object allocated in this call (at its level) or the object of
+an UNPROTECTED parameter (`wparams`, level `ext`); an argument handed to a written parameter of a callee is an
+immutable value, such an object, or a new object without entry constraints; every returned reference has the
+declared class (never `lv ext`); no call of unknown code receives an object -/
+def Cls.isExt : Cls → Bool
+  | .lv .ext => true
+  | _ => false
 
-def summaries (P : List Fn) : List Cls := P.map (·.retCls)
+def writesOnlyFresh (sums : List Summary) (f : Fn) : Bool :=
+  (absExec sums f.retCls false f.body (entryEnv f.params f.wparams)).ok && !f.retCls.isExt
+
+def summaries (P : List Fn) : List Summary := P.map fun f => (f.retCls, f.wparams)
 
 def disciplined (P : List Fn) : Bool := P.all (writesOnlyFresh (summaries P))
 
